@@ -985,3 +985,9 @@ pub fn drive(built: &mut Built, schedule: &[Step], opts: &DriveOpts) -> RunLog {
 pub fn drive_oneshot(built: &mut Built) -> RunLog {
     drive(built, &[], &DriveOpts::default())
 }
+
+impl Samp for i32 {
+    fn bits(&self) -> u64 {
+        *self as u32 as u64
+    }
+}
